@@ -122,6 +122,7 @@ func (X *Exec) validity(st *State, t *Term, T types.Type, depth int) *Term {
 func (X *Exec) newRef(st *State, hint string) *Term {
 	ts := X.E.TS
 	r := ts.Fresh(hint, SInt)
+	ts.FreshRefs[r] = true
 	al := X.allocArr(st)
 	st.assume(ts, ts.And(ts.Lt(ts.IntLit(0), r), ts.Not(ts.Select(al, r))))
 	X.setHeap(st, AllocHeap, ArraySort(SInt, SBool), ts.Store(al, r, ts.True()))
